@@ -6,6 +6,7 @@ import FluentModel.Plural
 import FluentModel.Pseudo
 import FluentModel.Unescape
 import FluentModel.Drv.Common
+import FluentModel.BundleLocale
 /-!
 driver for area `fmt`:
 
@@ -154,11 +155,10 @@ def runOne (payload : String) : String :=
     let tr := kvOf cfg "tr"
     let fm := kvOf cfg "fm"
     -- `loc=a+b+c` is the bundle's locale chain; formatters and plural rules are bound to the FIRST locale only
-    let chain := (kvOf cfg "loc").splitOn "+"
-    let loc := chain.headD ""
+    let loc := memoizerLocale (parseLocaleChain (kvOf cfg "loc"))
     -- locales whose language the plural model knows (others fall back to `en` in the crate's negotiation,
     -- which the model also does, but only the listed ones are validated)
-    if !(["en", "en-US", "pl", "ru", "ar", "fr", "cs", "lt", "ja", "pl-PL", "fr-CA", "xx", "pt", "pt-PT", "pt-BR", "pt-AO", "de", "uk", "sl", "cy", "ro", "sv"].contains loc) then "unsupported" else
+    if !(["en", "en-US", "pl", "ru", "ar", "fr", "cs", "lt", "ja", "pl-PL", "fr-CA", "xx", "und", "pt", "pt-PT", "pt-BR", "pt-AO", "de", "uk", "sl", "cy", "ro", "sv"].contains loc) then "unsupported" else
     -- functions first, then resources in order
     let reg0 : Reg := if fns == "-" then [] else
       (fns.splitOn ",").foldl (fun r name =>
